@@ -147,8 +147,12 @@ func (m *Msg) readBody(br *bufio.Reader) error {
 		m.Complete = true
 		return nil
 	case "eof":
-		b, _ := io.ReadAll(br)
+		b, err := io.ReadAll(br)
 		m.Body = b
+		if err != nil {
+			// deadline hit (or reset) while the connection was still open: the message has no end yet
+			return ErrIncomplete
+		}
 		m.Complete = true // delimited by close: complete as far as a parser can tell
 		return nil
 	case "chunked":
